@@ -43,7 +43,9 @@ theorem dbReverseRemove_c (g : Bool) (s : Sess) (p cid : Nat) : (dbReverseRemove
   unfold dbReverseRemove
   split
   · rfl
-  · split <;> rfl
+  · split
+    · rfl
+    · split <;> rfl
 
 theorem dbUpdateReverse_c (g : Bool) (s : Sess) (cid : Nat) (old : Option Val) (new : Val) :
     (dbUpdateReverse g s cid old new).1.c = s.c := by
@@ -402,8 +404,11 @@ theorem dbReverseRemove_full (s : Sess) (p cid : Nat) : FullFrozen s (dbReverseR
   · rename_i sd hk
     by_cases hf : sd.full = true
     · simp only [hf, Bool.and_self, if_true]; exact FullFrozen.refl s
-    · simp only [hf, Bool.true_and]
-      exact FullFrozen.setKids_notfull s p _ (fun sd0 h => by rw [hk] at h; cases h; simpa using hf)
+    · have hff : sd.full = false := by simpa using hf
+      simp only [hff, Bool.and_false, Bool.false_eq_true, if_false]
+      split
+      · exact FullFrozen.setKids_notfull s p _ (fun sd0 h => by rw [hk] at h; cases h; exact hff)
+      · exact FullFrozen.refl s
 
 theorem dbUpdateReverse_full (s : Sess) (cid : Nat) (old : Option Val) (new : Val) :
     FullFrozen s (dbUpdateReverse true s cid old new).1 := by
